@@ -9,6 +9,7 @@ package leveldb
 
 import (
 	"github.com/syndtr/goleveldb/leveldb/comparer"
+	"github.com/syndtr/goleveldb/leveldb/filter"
 	"github.com/syndtr/goleveldb/leveldb/memdb"
 	"github.com/syndtr/goleveldb/leveldb/storage"
 )
@@ -173,3 +174,6 @@ func (db *DB) VerifLiveTableNums() map[int64]bool {
 }
 
 var _ = storage.TypeTable
+
+// VerifIFilter wraps a user filter the way the DB does (filters see user keys).
+func VerifIFilter(f filter.Filter) filter.Filter { return iFilter{f} }
